@@ -150,8 +150,9 @@ CHECKS = {
  'C05': dict(
     text='Coq theorems over a transcription of the 36 token recognisers and the real LR driver on the generated tables: '
          'integer, decimal, percent and power literals of any length evaluate to exactly the number spelled, a quoted literal '
-         'to exactly its content; leading white space and white space between stand-alone tokens never changes the token '
-         'sequence; for every present/absent pattern of up to 6 slots the three separators agree and an accepted call passes '
+         'to exactly its content; white space (any amount, possibly none) at ANY subset of the token boundaries never changes the token '
+         'sequence when the local next-character condition holds (punctuation before anything; numbers, names, cells, text before white '
+         'space / operators / separators / closing brackets; a function name before its parenthesis only); for every present/absent pattern of up to 6 slots the three separators agree and an accepted call passes '
          'exactly the slot list; array literal shapes; labels are case-insensitive. Tied to the code by the lexer '
          'correspondence on every string of length <= 3/4 over 26 class representatives and formulas through Parser.parse.',
     design='7/C05',
